@@ -1,5 +1,7 @@
 """C02 - charger, queue and parking-stall counts match the vehicles using them."""
-from hivemon.checks.common import BUILTIN, hostile_stack, shipped_case, simple_main, trace_case
+from hivemon.checks.common import BUILTIN, hostile_stack, shipped_case, trace_case
+from hivemon.checks.sysmix import main_with_sys
+from hivemon.drive.systematic import systematic_cases
 
 PROFILE = {
     "n_vehicles": (6, 20),
@@ -27,6 +29,7 @@ def build_cases(tier, seed):
         if i % 6 == 5:
             prof["network"] = "grid"
         cases.append(trace_case("C02", i, s, prof, ctrl, steps, ["C02"]))
+    cases += systematic_cases("C02", tier, seed)
     if tier == "thorough":
         for w in ("denver_downtown/denver_demo.yaml", "denver_downtown/denver_demo_constrained_charging.yaml", "denver_downtown/denver_demo_fleets.yaml"):
             cases.append(shipped_case("C02", w, 400, ["C02"], controller=hostile_stack(0.2), tag="h"))
@@ -34,15 +37,15 @@ def build_cases(tier, seed):
     return cases
 
 
-main = simple_main(
+main = main_with_sys(
     "C02",
     build_cases,
     "c02_plugs_in_use",
     {
-        "quick": {"c02_states_checked": 3000, "set:activities": 9, "set:transitions": 25, "c02_full_plug_states": 50, "c02_full_base_states": 50, "c02_queued": 5},
-        "thorough": {"c02_states_checked": 100000, "set:activities": 11, "set:transitions": 40, "c02_full_plug_states": 1000, "c02_full_base_states": 1000, "c02_queued": 100, "c02_out_of_energy": 5},
+        "quick": {"c02_states_checked": 3000, "set:activities": 9, "set:transitions": 25, "c02_full_plug_states": 50, "c02_full_base_states": 50, "c02_queued": 5, "sys_transitions": 20000},
+        "thorough": {"c02_states_checked": 100000, "set:activities": 11, "set:transitions": 40, "c02_full_plug_states": 1000, "c02_full_base_states": 1000, "c02_queued": 100, "c02_out_of_energy": 5, "sys_transitions": 500000},
     },
     "generated contention scenarios (1-2 plugs / stalls for 6-20 low-charge vehicles) under hostile + built-in control, plus shipped Denver scenarios in the thorough tier; "
-    "after every step the counters are recomputed from the vehicles' activities. non-trivial = at least one plug in use during the run; distinct = distinct case hash",
+    "after every step (and in every state reached by the bounded systematic driver over four contention worlds) the counters are recomputed from the vehicles' activities. non-trivial = at least one plug in use during the run; distinct = distinct case hash",
     ["one crank(1) is one step; counters compared at step boundaries", "vehicles on a plug type the station does not install have no counter and are out of scope"],
 )
